@@ -122,7 +122,8 @@ class NMAP(Application, discriminator="nmap"):
                 data=results,
             )
 
-        rm = RequestManager()
+        # start from the generic application requests (scan, close, fix, ...) like every other application
+        rm = super()._init_request_manager()
 
         rm.add_request(
             name="ping_scan",
